@@ -317,5 +317,5 @@ def warmup(tier):
 
 def parts(tier):
     q = tier == "quick"
-    return [Part("contexts", oracle, strategy=history(), n=600 if q else 32000, describe=describe),
-            Part("unordered", oracle_unordered, strategy=unordered(), n=150 if q else 4000, describe=describe)]
+    return [Part("contexts", oracle, strategy=history(), n=600 if q else 128000, describe=describe),
+            Part("unordered", oracle_unordered, strategy=unordered(), n=150 if q else 16000, describe=describe)]
